@@ -219,6 +219,8 @@ def has_cellc_in_not(deck):
             return False
         if expr[0] == '#':
             return walk(expr[1], True)
+        if expr[0] == 'g':
+            return walk(expr[1], inside)
         return any(walk(sub, inside) for sub in expr[1:])
     return any(walk(c.geom, False) for c in deck.cells)
 
@@ -234,6 +236,8 @@ def structure_of(deck):
             return f'^{expr[1]}'
         if expr[0] == '#':
             return '#(' + skel(expr[1]) + ')'
+        if expr[0] == 'g':
+            return '(' + skel(expr[1]) + ')'
         return '(' + expr[0].join(skel(s) for s in expr[1:]) + ')'
     kinds = ','.join(s.kind for s in deck.surfs)
     return kinds + '|' + ';'.join(skel(c.geom) for c in deck.cells)
